@@ -421,12 +421,13 @@ TO_BYTES_SINKS = {
 }
 
 
-def rule_to_bytes_range(ctx: Ctx, rep: Report) -> None:
+def rule_to_bytes_range(ctx: Ctx, rep: Report, rule: str = "C19.to_bytes_range", only_module: str | None = None, floor: int = 6) -> None:
     """C19.to_bytes_range: an integer that a callee writes with a fixed-width
     to_bytes is range-checked at every call site (else OverflowError, not an answer)."""
-    rule = "C19.to_bytes_range"
     for callee, (positions, validators) in TO_BYTES_SINKS.items():
         for fi, call in sorted(ctx.callers(callee), key=lambda x: (x[0].qualname, x[1].lineno)):
+            if only_module is not None and fi.module.name != only_module:
+                continue
             g = ctx.cfg(fi)
             for pos in positions:
                 if len(call.args) <= pos:
@@ -448,7 +449,7 @@ def rule_to_bytes_range(ctx: Ctx, rep: Report) -> None:
                            f"`{a.id}` reaches a fixed-width to_bytes without a range check: an out-of-range integer is an OverflowError, not False")
                     continue
                 rep.unknown(rule, key, fi.where(call), "argument shape not recognised")
-    rep.floor(rule, 6)
+    rep.floor(rule, floor)
 
 
 RULES = [
